@@ -602,6 +602,15 @@ class Ev:
         st.store[loc] = self.set_path(old, path, v, self.loc_type(fr, loc))
 
     # -------------------------------------------------------------------------------- rvalues
+    def fold_bytes(self, v, st):
+        """be(byte_{n-1}(x), .., byte_0(x)) is x when x fits in n bytes on this path"""
+        r = T.bytes_of_same(v)
+        if r is not None:
+            x, n = r
+            if solver.entails(st.pc, T.band_bool(T.ge0(x), T.ge0(T.sub(T.I(256 ** n - 1), x)))):
+                return x
+        return v
+
     def int_range_cond(self, v, ty):
         r = solver.INT_RANGES.get(ty)
         if r is None:
@@ -760,7 +769,7 @@ class Ev:
                 if base == 'BitAnd': return T.band_bool(a, b)
                 if base == 'BitOr': return T.bor_bool(a, b)
                 return T.bnot(T.eq(a, b))
-            return T.bitop({'BitAnd': 'band', 'BitOr': 'bor', 'BitXor': 'bxor'}[base], a, b)
+            return self.fold_bytes(T.bitop({'BitAnd': 'band', 'BitOr': 'bor', 'BitXor': 'bxor'}[base], a, b), st)
         if base in ('Shl', 'Shr'):
             return T.shift('shl' if base == 'Shl' else 'shr', a, b)
         if base in ('Div', 'Rem'):
